@@ -2,6 +2,7 @@
 from __future__ import annotations
 
 import ast
+import copy
 import os
 import struct
 from pathlib import Path
@@ -19,6 +20,62 @@ PURE_BUILTINS = ('len', 'int', 'bool', 'hex', 'abs', 'min', 'max')
 
 # functions annotated `-> NoReturn` in any module parsed so far: a call of one ends the path like a raise
 NORETURN_NAMES: Set[str] = set()
+
+
+def _spread_divmod(tree: ast.AST) -> None:
+    """`q, r = divmod(a, b)` with call-free a, b that do not mention q reads as `q = a // b; r = a % b` (the definition of divmod for
+    ints; in place, positions kept) - every rule then sees the two operators it already reads."""
+    for parent in ast.walk(tree):
+        for field in ('body', 'orelse', 'finalbody'):
+            body = getattr(parent, field, None)
+            if not isinstance(body, list):
+                continue
+            out: List[ast.stmt] = []
+            for st in body:
+                v = st.value if isinstance(st, ast.Assign) and len(st.targets) == 1 else None
+                t = st.targets[0] if v is not None else None          # type: ignore[union-attr]
+                if (isinstance(v, ast.Call) and isinstance(v.func, ast.Name) and v.func.id == 'divmod' and len(v.args) == 2 and not v.keywords
+                        and isinstance(t, (ast.Tuple, ast.List)) and len(t.elts) == 2 and all(isinstance(e, ast.Name) for e in t.elts)
+                        and not any(isinstance(x, (ast.Call, ast.NamedExpr, ast.Await, ast.Yield)) for a in v.args for x in ast.walk(a))
+                        and not any(isinstance(x, ast.Name) and x.id == t.elts[0].id for a in v.args for x in ast.walk(a))):      # type: ignore[attr-defined]
+                    for tgt, op in ((t.elts[0], ast.FloorDiv()), (t.elts[1], ast.Mod())):
+                        new = ast.Assign(targets=[tgt], value=ast.BinOp(left=copy.deepcopy(v.args[0]), op=op, right=copy.deepcopy(v.args[1])))
+                        ast.copy_location(new, st)
+                        ast.copy_location(new.value, v)
+                        ast.fix_missing_locations(new)
+                        out.append(new)
+                    continue
+                out.append(st)
+            body[:] = out
+
+
+def _flatten_dict_spreads(d: ast.Dict, assigns: Dict[str, ast.expr], depth: int = 0) -> Optional[ast.Dict]:
+    """{**A, 'k': v, **B} with A, B names of module-level dict literals -> one Dict node (a later key replaces an earlier one), else None"""
+    keys: List[Optional[ast.expr]] = []
+    vals: List[ast.expr] = []
+
+    def put(k: ast.expr, v: ast.expr) -> None:
+        for i, k0 in enumerate(keys):
+            if k0 is not None and ast.dump(k0) == ast.dump(k):
+                vals[i] = v
+                return
+        keys.append(k)
+        vals.append(v)
+    for k, v in zip(d.keys, d.values):
+        if k is not None:
+            put(k, v)
+            continue
+        part = assigns.get(v.id) if isinstance(v, ast.Name) else v
+        if isinstance(part, ast.Dict) and any(k2 is None for k2 in part.keys):
+            part = _flatten_dict_spreads(part, assigns, depth + 1) if depth < 3 else None
+        if not isinstance(part, ast.Dict):
+            return None
+        for k2, v2 in zip(part.keys, part.values):
+            if k2 is None:
+                return None
+            put(k2, v2)
+    out = ast.Dict(keys=keys, values=vals)
+    return ast.copy_location(out, d)
 
 
 class Repo:
@@ -67,6 +124,7 @@ class Repo:
                 tree = ast.parse(self.src(rel), filename=rel)
             except SyntaxError as e:
                 raise AnalysisError(f'{rel} does not parse: {e}') from e
+            _spread_divmod(tree)
             # locals renamed by an edit are renamed back to the vocabulary the rules use, where structure alone decides it
             from .localnames import renormalize_py
             renormalize_py(tree, rel)
@@ -130,6 +188,12 @@ class Repo:
                 out[st.targets[0].id] = st.value
             elif isinstance(st, ast.AnnAssign) and isinstance(st.target, ast.Name) and st.value is not None:
                 out[st.target.id] = st.value
+        # a table assembled from named parts (`T = {**A, **B, 'k': v}`) reads as the one literal it builds
+        for name, v in list(out.items()):
+            if isinstance(v, ast.Dict) and any(k is None for k in v.keys):
+                flat = _flatten_dict_spreads(v, out)
+                if flat is not None:
+                    out[name] = flat
         return out
 
     def const(self, rel: str, name: str) -> Any:
@@ -725,9 +789,15 @@ def dispatch_return(stmts: Sequence[ast.stmt], var: str, const: str, repo: Optio
                 tgt = st.targets[0] if isinstance(st, ast.Assign) else st.target
                 if isinstance(tgt, ast.Name) and isinstance(st.value, (ast.Dict, ast.Tuple, ast.List, ast.Set)):
                     tables[tgt.id] = st.value
+                elif isinstance(tgt, ast.Name) and st.value is not None and tgt.id != var:
+                    # an arm that only chooses a value (`kind = K`) and leaves the return to a common tail: the name reads as the value
+                    chosen[tgt.id] = SubChosen().visit(Sub().visit(clone(st.value)))
             elif isinstance(st, ast.If):
                 d = decide(st.test)
                 if d is None:
+                    for x in ast.walk(st):
+                        if isinstance(x, ast.Name) and isinstance(x.ctx, ast.Store):
+                            chosen.pop(x.id, None)
                     continue
                 done, val = run(st.body if d else st.orelse)
                 if done:
@@ -743,10 +813,15 @@ def dispatch_return(stmts: Sequence[ast.stmt], var: str, const: str, repo: Optio
                     pname = params[idx[0]] if idx and idx[0] < len(params) else (kw[0] if kw else None)
                     if pname:
                         return True, dispatch_return(h.body, pname, const, repo, rel, depth + 1)
-                return True, (ast.fix_missing_locations(Sub().visit(clone(v))) if v is not None else None)
+                return True, (ast.fix_missing_locations(SubChosen().visit(Sub().visit(clone(v)))) if v is not None else None)
             elif isinstance(st, ast.Raise):
                 return True, None
         return False, None
+    chosen: Dict[str, ast.expr] = {}
+
+    class SubChosen(ast.NodeTransformer):
+        def visit_Name(self, node: ast.Name) -> ast.AST:
+            return clone(chosen[node.id]) if isinstance(node.ctx, ast.Load) and node.id in chosen else node
     return run(stmts)[1]
 
 
@@ -1045,6 +1120,12 @@ def normalize_counting_whiles(fn: FuncNode) -> FuncNode:
             if isinstance(st, ast.While) and isinstance(st.test, ast.Compare) and len(st.test.ops) == 1 and isinstance(st.test.ops[0], ast.Lt) \
                     and isinstance(st.test.left, ast.Name) and st.body and not st.orelse:
                 i = st.test.left.id
+                # the step may stand anywhere at the top level of the body as long as nothing after it reads the counter (a chunk taken
+                # before the step, used after it): it reads as if it were the last statement
+                steps_ = [k for k, x in enumerate(st.body) if isinstance(x, ast.AugAssign) and norm(x.target) == i]
+                if len(steps_) == 1 and steps_[0] != len(st.body) - 1 and not any(
+                        isinstance(y, ast.Name) and y.id == i for b in st.body[steps_[0] + 1:] for y in ast.walk(b)):
+                    st.body = st.body[:steps_[0]] + st.body[steps_[0] + 1:] + [st.body[steps_[0]]]
                 last = st.body[-1]
                 inits = [k for k, x in enumerate(out) if isinstance(x, ast.Assign) and len(x.targets) == 1 and norm(x.targets[0]) == i]
                 ok = (isinstance(last, ast.AugAssign) and isinstance(last.op, ast.Add) and norm(last.target) == i and bool(inits)
@@ -1282,6 +1363,139 @@ def membership_searches(fn: FuncNode, seq: str) -> List[Tuple[ast.expr, List[ast
             names = [norm(e) for e in (g.target.elts if isinstance(g.target, ast.Tuple) else [g.target])]
             out.append((n.test.args[0].elt, n.body, n.lineno, names))
     return out
+
+
+def hoist_value_helpers(repo: 'Repo', rel: str, fn: FuncNode, cls: Optional[str] = None) -> FuncNode:
+    """a copy of fn in which a call of a private "do it and hand back the result" method nested inside a simple statement
+         S[ R._h(a, b) ]        with   def _h(self, p, q): <simple statements>; return E
+    reads as   <the simple statements, p/q := a/b, self := R>;  S[ E ]   - provided the call is the first thing S evaluates that is not
+    call-free (so nothing of S runs before the helper's statements) and the arguments are call-free. R is `self` (methods of cls) or
+    any other name when exactly one class of the module defines a private method of that name."""
+    new = clone(fn)
+    classes = [c for c in repo.mod(rel).body if isinstance(c, ast.ClassDef)]
+
+    def helper(call: ast.Call) -> Optional[Tuple[ast.expr, FuncNode]]:
+        f = call.func
+        if not (isinstance(f, ast.Attribute) and isinstance(f.value, ast.Name) and f.attr.startswith('_') and not f.attr.startswith('__')) or call.keywords:
+            return None
+        owners = [c for c in classes if any(isinstance(m, ast.FunctionDef) and m.name == f.attr for m in c.body)]
+        if f.value.id == 'self' and cls:
+            owners = [c for c in owners if c.name == cls]
+        if len(owners) != 1:
+            return None
+        h = [m for m in owners[0].body if isinstance(m, ast.FunctionDef) and m.name == f.attr][-1]
+        if h.decorator_list or h.args.vararg or h.args.kwarg or h.args.kwonlyargs or h.args.defaults:
+            return None
+        params = [a.arg for a in h.args.args]
+        if not params or params[0] != 'self' or len(params) - 1 != len(call.args):
+            return None
+        body = [b for b in h.body if not (isinstance(b, ast.Expr) and isinstance(b.value, ast.Constant))]
+        if len(body) < 2 or not isinstance(body[-1], ast.Return) or body[-1].value is None:
+            return None
+        if not all(isinstance(b, (ast.Assign, ast.AugAssign, ast.AnnAssign)) for b in body[:-1]):
+            return None
+        if any(isinstance(x, (ast.Call, ast.NamedExpr, ast.Await, ast.Yield)) for a in call.args for x in ast.walk(a)):
+            return None
+        # the helper binds no local of its own (its stores are attribute / subscript stores): nothing to rename in the caller
+        if any(isinstance(x, ast.Name) and isinstance(x.ctx, ast.Store) for b in body for x in ast.walk(b)):
+            return None
+        return f.value, h
+
+    def subst(node: ast.AST, binding: Dict[str, ast.expr]) -> Any:
+        class S(ast.NodeTransformer):
+            def visit_Name(self, n: ast.Name) -> ast.AST:
+                return clone(binding[n.id]) if n.id in binding and isinstance(n.ctx, ast.Load) else n
+        return S().visit(clone(node))
+
+    def fix(stmts: List[ast.stmt]) -> List[ast.stmt]:
+        out: List[ast.stmt] = []
+        for st in stmts:
+            for fld in ('body', 'orelse', 'finalbody'):
+                sub = getattr(st, fld, None)
+                if isinstance(sub, list) and sub and isinstance(sub[0], ast.stmt):
+                    setattr(st, fld, fix(sub))
+            if isinstance(st, ast.Try):
+                for hd in st.handlers:
+                    hd.body = fix(hd.body)
+            if isinstance(st, (ast.Expr, ast.Assign, ast.AugAssign, ast.AnnAssign, ast.Return)):
+                order = calls_in_order(st)
+                if order and isinstance(st, ast.Expr) and order[0] is st.value and helper(order[0]):
+                    order = []                   # a statement-level call: expand_private_calls reads those
+                hp = helper(order[0]) if order else None
+                if hp is not None:
+                    recv, h = hp
+                    call = order[0]
+                    binding: Dict[str, ast.expr] = {'self': recv}
+                    binding.update(dict(zip([a.arg for a in h.args.args][1:], call.args)))
+                    body = [b for b in h.body if not (isinstance(b, ast.Expr) and isinstance(b.value, ast.Constant))]
+                    for b in body[:-1]:
+                        nb = subst(b, binding)
+                        ast.copy_location(nb, st)
+                        out.append(ast.fix_missing_locations(nb))
+                    value = subst(body[-1].value, binding)
+
+                    class R(ast.NodeTransformer):
+                        def visit_Call(self, n: ast.Call) -> ast.AST:
+                            if n is call:
+                                return ast.copy_location(value, n)
+                            return self.generic_visit(n)
+                    st = ast.fix_missing_locations(R().visit(st))
+            out.append(st)
+        return out
+    new.body = fix(new.body)
+    return relink(ast.fix_missing_locations(new))
+
+
+def search_helpers_as_any(repo: 'Repo', rel: str, cls: Optional[str], fn: FuncNode) -> FuncNode:
+    """a copy of fn in which the call of a private helper whose whole body is
+         for T in SEQ:
+             if TEST: return True
+         return False
+    reads as `any(TEST for T in SEQ)` with the helper's parameters replaced by the (call-free) arguments - an extracted "is it in one
+    of the ranges" search reads like the loop it was extracted from (membership_searches knows the any() spelling)."""
+    new = clone(fn)
+
+    def as_any(call: ast.Call) -> Optional[ast.expr]:
+        d = dotted(call.func)
+        name = d.split('.')[-1]
+        if not name.startswith('_') or name.startswith('__') or call.keywords:
+            return None
+        q = f'{cls}.{name}' if d == f'self.{name}' and cls else name if d == name else None
+        if q is None or not repo.has_func(rel, q):
+            return None
+        h = repo.func(rel, q)
+        body = [b for b in h.body if not (isinstance(b, ast.Expr) and isinstance(b.value, ast.Constant))]
+        if not (len(body) == 2 and isinstance(body[0], ast.For) and not body[0].orelse and len(body[0].body) == 1
+                and isinstance(body[0].body[0], ast.If) and not body[0].body[0].orelse and len(body[0].body[0].body) == 1
+                and isinstance(body[0].body[0].body[0], ast.Return) and isinstance(body[0].body[0].body[0].value, ast.Constant)
+                and body[0].body[0].body[0].value.value is True
+                and isinstance(body[1], ast.Return) and isinstance(body[1].value, ast.Constant) and body[1].value.value is False):
+            return None
+        params = [a.arg for a in h.args.args if a.arg != 'self']
+        if len(params) != len(call.args) or h.args.vararg or h.args.kwarg or h.args.kwonlyargs:
+            return None
+        if any(isinstance(x, (ast.Call, ast.NamedExpr, ast.Await, ast.Yield)) for a in call.args for x in ast.walk(a)):
+            return None
+        binding = dict(zip(params, call.args))
+        loop_names = {x.id for x in ast.walk(body[0].target) if isinstance(x, ast.Name)}
+        if loop_names & {x.id for a in call.args for x in ast.walk(a) if isinstance(x, ast.Name)}:
+            return None
+
+        class S(ast.NodeTransformer):
+            def visit_Name(self, node: ast.Name) -> ast.AST:
+                return clone(binding[node.id]) if isinstance(node.ctx, ast.Load) and node.id in binding else node
+        gen = ast.comprehension(target=clone(body[0].target), iter=S().visit(clone(body[0].iter)), ifs=[], is_async=0)
+        out = ast.Call(func=ast.Name(id='any', ctx=ast.Load()), args=[ast.GeneratorExp(elt=S().visit(clone(body[0].body[0].test)), generators=[gen])], keywords=[])
+        return ast.copy_location(out, call)
+
+    class T(ast.NodeTransformer):
+        def visit_Call(self, node: ast.Call) -> ast.AST:
+            self.generic_visit(node)
+            r = as_any(node)
+            return r if r is not None else node
+    T().visit(new)
+    ast.fix_missing_locations(new)
+    return new
 
 
 def calls_in_order(node: ast.AST) -> List[ast.Call]:
